@@ -383,7 +383,15 @@ class TreeFx:
                                 out.add(("shrink_below", x) if x in params else ("shrink_any",))
             if isinstance(n, ast.Call):
                 if isinstance(n.func, ast.Attribute) and n.func.attr in ("pop", "popitem", "clear") and self.is_store(ft, n.func.value):
-                    out.add(("unreg_any",))
+                    kp = self._pathof(ft, n.args[0]) if (n.func.attr == "pop" and n.args and not n.keywords) else None
+                    if kp in params:  # registry.pop(id) unregisters exactly the key it is given, as `del registry[id]` does
+                        out.add(("unreg_id", kp))
+                    elif kp is not None and kp.endswith("._id") and kp[:-4] in params:
+                        out.add(("unreg", kp[:-4]))
+                    elif kp is not None and kp.endswith("._id"):
+                        out |= self._unreg_local(fi, kp[:-4])
+                    else:
+                        out.add(("unreg_any",))
                 for tg in self.w.resolve_call(ft, n):
                     if tg.func is None or tg.kind == "class":
                         continue
